@@ -225,6 +225,8 @@ def run(ck):
     ck.run_rule("C12.R3", "self-dependent base is reported", 1, rule_R3)
     ck.run_rule("C12.R4", "'. =': base-setting vs forward skip; zero fill; backward refused (cells over all N)", 3, rule_R4)
     ck.run_rule("G1", "deferred thunks capture by value", 20, thunks.rule_G1)
+    from . import c06 as _c06
+    ck.run_rule("C06.R1", "the value of '.link X' / '. = X' is read as a 16-bit number: accept interval and reduction (65536 is out of range, not address 0)", 20, _c06.rule_R1)
     ck.run_rule("C12.R6", "'.link' passes its raw operand", 1, rule_R6)
     ck.run_rule("C03.R7", "LinearPolynomial algebra (the base cancels in K + end - start)", 18, c03.rule_R7)
     ck.run_rule("C03.R7t", "the base cancels in 'K + end - start' as written: + - * do not force unknown operands", 6, c03.rule_R7t)
